@@ -98,6 +98,8 @@ Proof.
   constructor; k16s; ssimpl; rewrite ?Er, ?andb_false_r; try assumption; try congruence; try reflexivity.
   - rewrite j_ok7, j_open6. cbn. rewrite Z.eqb_refl. reflexivity.
   - rewrite j_ok8, j_reg7. reflexivity.
+  - destruct (c_ext c); assumption.
+  - destruct (c_ext c); assumption.
 Qed.
 Lemma J_open_ev id s k : J c None s k -> regw s = false ->
   J c (Some id) s (k16_ev (c_ext c) k (SockOpen id)).
@@ -106,6 +108,8 @@ Proof.
   constructor; k16s; ssimpl; rewrite ?Er, ?andb_false_r; try assumption; try congruence; try reflexivity.
   - rewrite j_ok7, j_open6. reflexivity.
   - rewrite j_ok8, j_reg7. reflexivity.
+  - destruct (c_ext c); assumption.
+  - destruct (c_ext c); assumption.
 Qed.
 Lemma J_set_regw_direct o b s k : c_ext c = false -> (b = true -> o <> None) -> J c o s k -> J c o (set_regw b s) k.
 Proof.
@@ -256,9 +260,9 @@ Proof.
 Qed.
 
 (* _sock_close *)
-Lemma sock_close_P r s : P s -> P (sock_close c nested r s).
+Lemma sock_close_P' r s : P s -> P (sock_close c nested r s) /\ sock (sock_close c nested r s) = None.
 Proof.
-  intros HP. unfold sock_close. destruct (sock s) as [id|] eqn:Es; [|exact HP].
+  intros HP. unfold sock_close. destruct (sock s) as [id|] eqn:Es; [|split; [exact HP|exact Es]].
   destruct HP as [[HJ HT] _].
   set (s1 := emit (ConnEnd id r) (set_sock None s)).
   assert (W1 : win id s1).
@@ -319,7 +323,7 @@ Proof.
   { destruct HP3 as [[HJ3 _] Hw]. split; [split; [|exact HT3]|].
     - rewrite (KS_frame _ _ _ _ Ftr), Fsock. destruct HJ3. constructor; rewrite ?Fregw; assumption.
     - unfold WW in *. rewrite Fsock, Fregw, Foutq. exact Hw. }
-  destruct sc as [|a sc]; [exact HP4|].
+  destruct sc as [|a sc]; [split; [exact HP4|congruence]|].
   set (s5 := set_incb (false || incb s4) s4).
   assert (HP5 : P s5) by (eapply P_frame; [| | | | |exact HP4]; reflexivity).
   assert (Hs5 : sock s5 = None) by (unfold s5; ssimpl; congruence).
@@ -328,12 +332,15 @@ Proof.
   { eapply KS_ignored with (ign := inert16); [intros; apply k16_inert; assumption|exact Ht|].
     eapply Forall_impl; [|exact Hf]. intros e. apply tev_inert. }
   destruct HP5 as [[HJ5 HT5] Hw5].
+  split; [|ssimpl; congruence].
   split; [split|].
   - rewrite (KS_frame _ _ (nested (a :: sc) s5) (set_incb (incb s4) (nested (a :: sc) s5))) by reflexivity.
     ssimpl. rewrite EK, co_sock. eapply J_frame; [|exact HJ5]. ssimpl. exact co_regw.
   - ssimpl. rewrite co_scr. exact HT5.
   - unfold WW in *. ssimpl. rewrite co_sock, co_regw, co_outq. exact Hw5.
 Qed.
+Lemma sock_close_P r s : P s -> P (sock_close c nested r s).
+Proof. intros H. apply sock_close_P'. exact H. Qed.
 
 
 (* ---- frames ---- *)
@@ -445,12 +452,19 @@ Proof.
   - cbn [fst]. apply call_regw_P. exact H1.
 Qed.
 
+Lemma P_nosock_regw s : P s -> sock s = None -> regw s = false.
+Proof.
+  intros [[HJ _] _] Hs. destruct HJ. rewrite Hs in *. destruct (regw s); [|reflexivity].
+  exfalso. apply j_regw0; reflexivity.
+Qed.
+
 Lemma reconnect_body_P ok s : P s -> P (fst (reconnect_body c nested ok s)).
 Proof.
   intros HP. unfold reconnect_body.
-  assert (H2 : P (sock_close c nested RReplaced (set_cs CsConnecting (set_ping false s)))).
-  { apply sock_close_P. apply P_set_cs. apply P_set_ping. exact HP. }
+  destruct (sock_close_P' RReplaced (set_cs CsConnecting (set_ping false s))) as [H2 Hs2].
+  { apply P_set_cs. apply P_set_ping. exact HP. }
   set (s2 := sock_close c nested RReplaced (set_cs CsConnecting (set_ping false s))) in *.
+  pose proof (P_nosock_regw _ H2 Hs2) as Hr2.
   assert (H3 : P (set_outq [] s2)).
   { destruct H2 as [H0 _]. split; [apply P0_set_outq; exact H0|]. unfold WW. ssimpl. congruence. }
   destruct ok; cbn [negb].
@@ -463,10 +477,130 @@ Proof.
     destruct H3 as [[HJ HT] _]. split; [split; [|exact HT]|unfold WW; ssimpl; congruence].
     rewrite KS_emit. unfold s4. rewrite KS_emit, (k16_inert _ _ (SockNew id)) by reflexivity.
     rewrite (KS_frame _ _ (set_outq [] s2) (set_regw false (set_sock (Some id) (set_nsock id (set_outq [] s2))))) by reflexivity.
-    ssimpl.
-    (* after _sock_close nothing is open; the flag is reset *)
-    destruct (sock s2) as [x|] eqn:Es2.
-    - (* a nested reconnect() in the teardown left a socket behind: excluded by T, shown via the invariant *)
-      exfalso. clear - HJ Es2 H2. unfold s2 in Es2.
-      (* sock_close always ends with no socket held when it started from P: see sock_close_nosock *)
-      revert Es2. fold s2. intros Es2. exact (sock_close_nosock _ _ HP' Es2). }
+    ssimpl. rewrite Hs2 in HJ.
+    eapply J_frame; [|apply J_open_ev; [eapply J_frame; [|exact HJ]; reflexivity|]]; ssimpl; [reflexivity|exact Hr2]. }
+  pose proof (packet_queue_P KConnect _ H5) as H6.
+  destruct (packet_queue c nested KConnect (run_site nested SiOpen false (SockOpen id) s4)) as [s6 rc].
+  exact H6.
+Qed.
+
+Lemma api_reconnect_P ok s : P s -> P (fst (api_reconnect c nested ok s)).
+Proof. intros HP. unfold api_reconnect. apply reconnect_body_P. apply P_emit; [reflexivity|exact HP]. Qed.
+
+Lemma api_connect_P ok s : P s -> P (fst (api_connect c nested ok s)).
+Proof.
+  intros HP. unfold api_connect. apply reconnect_body_P. apply P_set_cs. apply sock_close_P.
+  apply P_emit; [reflexivity|exact HP].
+Qed.
+
+Lemma api_disconnect_P s : P s -> P (fst (api_disconnect c nested s)).
+Proof.
+  intros HP. unfold api_disconnect. ssimpl. destruct (sock s).
+  - apply packet_queue_P. apply P_set_cs. apply P_emit; [reflexivity|exact HP].
+  - cbn [fst]. apply P_set_cs. apply P_emit; [reflexivity|exact HP].
+Qed.
+
+Lemma api_send_P ck k s : P s -> P (fst (api_send c nested ck k s)).
+Proof.
+  intros HP. unfold api_send. ssimpl. destruct (sock s).
+  - apply packet_queue_P. apply P_emit; [reflexivity|exact HP].
+  - cbn [fst]. apply P_emit; [reflexivity|exact HP].
+Qed.
+
+Lemma api_nested_P a s : P s -> P (api_nested c nested a s).
+Proof.
+  intros HP. destruct a; cbn [api_nested].
+  - apply api_send_P; exact HP.
+  - apply api_send_P; exact HP.
+  - apply api_disconnect_P; exact HP.
+  - apply api_reconnect_P; exact HP.
+Qed.
+
+Lemma exec_script_P : forall sc s, P s -> P (exec_script c nested sc s).
+Proof.
+  unfold exec_script. induction sc as [|a sc IH]; intros s HP; cbn [fold_left]; [exact HP|].
+  apply IH. apply api_nested_P. exact HP.
+Qed.
+
+Lemma after_read_P r : P (fst r) -> P (fst (after_read c nested r)).
+Proof.
+  destruct r as [s [rc|]]; cbn [fst after_read]; intros HP; [|exact HP].
+  destruct (rc >? 0); [|exact HP].
+  pose proof (loop_rc_handle_P rc s HP) as H. destruct (loop_rc_handle c nested rc s). exact H.
+Qed.
+
+Lemma handle_connack_P rc s : P s -> P (fst (handle_connack nested rc s)).
+Proof.
+  intros HP. unfold handle_connack. cbn [fst].
+  assert (H1 : P (if rc =? 0 then set_cs CsConnected s else s)) by (destruct (rc =? 0); [apply P_set_cs|]; exact HP).
+  apply run_site_P; [intros _; exact H1|apply P_emit; [reflexivity|exact H1]].
+Qed.
+
+Lemma downgrade_P ok s : P s -> P (fst (downgrade c nested ok s)).
+Proof. intros HP. unfold downgrade. apply reconnect_body_P. apply P_set_proto. exact HP. Qed.
+
+Lemma handle_server_disconnect_P rc s : P s -> P (fst (handle_server_disconnect c nested rc s)).
+Proof.
+  intros HP. unfold handle_server_disconnect.
+  pose proof (lost_tail_P rc true _ (sock_close_P RServerDisc s HP)) as H.
+  destruct (lost_tail nested rc true (sock_close c nested RServerDisc s)). exact H.
+Qed.
+
+Lemma loop_read_P i s : P s -> P (fst (loop_read c nested i s)).
+Proof.
+  intros HP. unfold loop_read. destruct (sock s); [|exact HP].
+  destruct i; try exact HP.
+  - destruct ((proto s =? 4) && (rc =? 1)); apply after_read_P; [apply downgrade_P|apply handle_connack_P]; exact HP.
+  - destruct (proto s =? 4); apply after_read_P; [apply downgrade_P|apply handle_connack_P]; exact HP.
+  - destruct (proto s =? 5); [apply handle_server_disconnect_P; exact HP|apply after_read_P; exact HP].
+  - apply after_read_P; exact HP.
+  - apply after_read_P; exact HP.
+  - apply after_read_P; exact HP.
+  - pose proof (packet_queue_P KOther s HP) as H. destruct (packet_queue c nested KOther s) as [s1 rc].
+    apply after_read_P. exact H.
+  - cbn [fst]. apply P_set_ping. exact HP.
+Qed.
+
+Lemma keepalive_close_P s : P s -> P (keepalive_close c nested s).
+Proof. intros HP. unfold keepalive_close. apply lost_tail_P. apply sock_close_P. exact HP. Qed.
+
+Lemma check_keepalive_P m s : P s -> P (check_keepalive c nested m s).
+Proof.
+  intros HP. unfold check_keepalive. destruct m; try exact HP.
+  destruct (sock s); [|exact HP].
+  destruct (is_connected s && negb (ping s)); [|apply keepalive_close_P; exact HP].
+  pose proof (packet_queue_P KPingreq s HP) as H. destruct (packet_queue c nested KPingreq s) as [s1 rc].
+  cbn [fst] in H. destruct (rc =? 0); [apply P_set_ping|]; exact H.
+Qed.
+
+Lemma loop_misc_P m s : P s -> P (fst (loop_misc c nested m s)).
+Proof.
+  intros HP. unfold loop_misc. destruct (sock s); [|exact HP].
+  pose proof (check_keepalive_P m s HP) as H1.
+  destruct (sock (check_keepalive c nested m s)); [|exact H1].
+  destruct m; try exact H1.
+  destruct (ping (check_keepalive c nested MPingDue s)); [|exact H1].
+  cbn [fst]. apply keepalive_close_P. exact H1.
+Qed.
+
+Lemma ret_of_P r : P (fst r) -> P (ret_of r).
+Proof. destruct r as [s [rc|]]; cbn [fst ret_of]; intros HP; [apply P_emit; [reflexivity|]|]; exact HP. Qed.
+
+Lemma run_top_P t s : P s -> P (run_top c nested t s).
+Proof.
+  intros HP. destruct t; cbn [run_top].
+  - apply ret_of_P. apply api_connect_P. exact HP.
+  - apply ret_of_P. apply api_reconnect_P. exact HP.
+  - pose proof (api_disconnect_P s HP) as H. destruct (api_disconnect c nested s). apply P_emit; [reflexivity|exact H].
+  - pose proof (api_send_P CPublish KPublish0 s HP) as H. destruct (api_send c nested CPublish KPublish0 s).
+    apply P_emit; [reflexivity|exact H].
+  - pose proof (api_send_P CSubscribe KSubscribe s HP) as H. destruct (api_send c nested CSubscribe KSubscribe s).
+    apply P_emit; [reflexivity|exact H].
+  - apply ret_of_P. apply loop_read_P. apply P_emit; [reflexivity|exact HP].
+  - pose proof (loop_write_P _ (P_emit (Call CLoopWrite) s eq_refl HP)) as H.
+    destruct (loop_write c nested (emit (Call CLoopWrite) s)). apply P_emit; [reflexivity|exact H].
+  - pose proof (loop_misc_P m _ (P_emit (Call CLoopMisc) s eq_refl HP)) as H.
+    destruct (loop_misc c nested m (emit (Call CLoopMisc) s)). apply P_emit; [reflexivity|exact H].
+Qed.
+
+End C16.
